@@ -1,4 +1,4 @@
-"""C03: multi-part check (parts: bee, cd, hs); see harness/parts.py and the part modules."""
+"""C03: multi-part check (parts: beap, bee, cd, hs); see harness/parts.py and the part modules."""
 from harness.parts import make
 
-make(globals(), ['c03_bee', 'c03_cd', 'c03_hs'])
+make(globals(), ['c03_beap', 'c03_bee', 'c03_cd', 'c03_hs'])
